@@ -37,10 +37,15 @@ typedef numpy::aligned_array<double> integral_image_type;
 
 template <typename T>
 double sum_rect(const numpy::aligned_array<T>& integral, int y0, int x0, int y1, int x1) {
-    y0 = std::max<int>(y0-1, 0);
-    x0 = std::max<int>(x0-1, 0);
-    y1 = std::min<int>(y1-1, integral.dim(0) - 1);
-    x1 = std::min<int>(x1-1, integral.dim(1) - 1);
+    const int N0 = integral.dim(0);
+    const int N1 = integral.dim(1);
+    if (N0 <= 0 || N1 <= 0) return 0.;
+    // clamp all four corners into the image: a window that ends before the
+    // image or starts beyond it is empty (both corners coincide, sum 0)
+    y0 = std::min<int>(std::max<int>(y0-1, 0), N0 - 1);
+    x0 = std::min<int>(std::max<int>(x0-1, 0), N1 - 1);
+    y1 = std::min<int>(std::max<int>(y1-1, 0), N0 - 1);
+    x1 = std::min<int>(std::max<int>(x1-1, 0), N1 - 1);
 
     const T A = integral.at(y0,x0);
     const T B = integral.at(y0,x1);
